@@ -640,6 +640,51 @@ def shrink_case(c, fails):
     return c
 
 
+def start_reach(funcs):
+    """record which lines of the modelled functions the inputs of this run execute (sys.monitoring, Python 3.12)"""
+    import sys
+    mon = getattr(sys, 'monitoring', None)
+    if mon is None:
+        return None
+    tool = mon.PROFILER_ID
+    try:
+        mon.use_tool_id(tool, 'c13reach')
+    except ValueError:
+        return None
+    hit = set()
+    codes = {f.__code__ for f in funcs}
+
+    def on_line(code, line):
+        if code in codes:
+            hit.add((code.co_name, line))
+        return mon.DISABLE
+
+    mon.register_callback(tool, mon.events.LINE, on_line)
+    for c in codes:
+        mon.set_local_events(tool, c, mon.events.LINE)
+    return {'hit': hit, 'codes': codes, 'tool': tool}
+
+
+def stop_reach(st):
+    import sys
+    if st is None:
+        return None
+    mon = sys.monitoring
+    for c in st['codes']:
+        mon.set_local_events(st['tool'], c, 0)
+    mon.register_callback(st['tool'], mon.events.LINE, None)
+    mon.free_tool_id(st['tool'])
+    missed = {}
+    total = 0
+    for c in st['codes']:
+        lines = {ln for (_, _, ln) in c.co_lines() if ln is not None and ln != c.co_firstlineno}
+        total += len(lines)
+        miss = sorted(ln for ln in lines if (c.co_name, ln) not in st['hit'])
+        if miss:
+            missed[c.co_name] = miss
+    return total, missed
+
+
 def load_corpus():
     import glob
     import os
@@ -672,6 +717,12 @@ def run(chk):
     ]
     quick = tier == 'quick'
     corpus = load_corpus()
+    from peptacular.sequence import mod_builder as _mb
+    from peptacular.proforma import input_convert as _ic
+    from peptacular import util as _ut
+    reach = start_reach([_mb.apply_static_mods, _mb.apply_variable_mods, _mb._apply_variable_mods_rec, _mb._variable_mods_builder,
+                         _ic.fix_list_of_mods, _ic.fix_list_of_list_of_mods, _ic.remove_empty_list_of_list_of_mods,
+                         _ut.get_regex_match_indices])
 
     # ------------------------------------------------------------------ cases
     n_static = 1500 if quick else 15000
@@ -765,6 +816,40 @@ def run(chk):
     chk.oracle('variable_vs_subset_enumeration', vsel, o_var,
                nontrivial_fn=lambda c: True, key_fn=lambda c: json.dumps(jcase(c), sort_keys=True))
 
+    # error paths and the compiled-pattern entry (not part of the model; exercised so that every line of the modelled
+    # functions is reached and their behaviour is on record)
+    def o_errors(c):
+        import regex
+        import peptacular as pt
+        kind = c[0]
+        try:
+            if kind == 'static-mode':
+                pt.apply_static_mods('P[1]EP', {'P': 'x'}, mode='bogus')
+            elif kind == 'static-nterm-mode':
+                pt.apply_static_mods('[1]-PEP', None, nterm_mods='x', mode='bogus')
+            elif kind == 'static-cterm-mode':
+                pt.apply_static_mods('PEP-[1]', None, cterm_mods='x', mode='bogus')
+            elif kind == 'variable-mode':
+                pt.apply_variable_mods('P[1]EP', {'P': 'x'}, 1, mode='bogus')
+            elif kind == 'bad-mods':
+                pt.apply_static_mods('PEP', {'P': {'a': 1}})
+            elif kind == 'bad-var-mods':
+                pt.apply_variable_mods('PEP', {'P': {'a': 1}}, 1)
+            elif kind == 'compiled':
+                s_, rx = c[1], c[2]
+                from peptacular.util import get_regex_match_indices
+                got = list(get_regex_match_indices(s_, regex.compile(rx), offset=-1))
+                return None if got == ref_sites(s_, rx) else f'compiled pattern {rx!r} on {s_!r}: {got}'
+        except ValueError:
+            return None
+        except Exception as e:  # noqa
+            return f'{kind}: {type(e).__name__} instead of ValueError'
+        return f'{kind}: no ValueError'
+
+    err_cases = [('static-mode',), ('static-nterm-mode',), ('static-cterm-mode',), ('variable-mode',), ('bad-mods',),
+                 ('bad-var-mods',)] + [('compiled', s_, rx) for s_, rx in site_cases[:200] if rx]
+    chk.oracle('error_paths_and_compiled_patterns', err_cases, o_errors, nontrivial_fn=lambda c: True)
+
     # the implementation against the Lean specification (mode skip), as multisets when the offers are distinct
     skip_cases = [c for c in vsel if c['mode'] == 'skip']
     spec_out = chk.driver(DRV, [var_line(c, 'spec') for c in skip_cases])
@@ -783,6 +868,13 @@ def run(chk):
                key_fn=lambda c: json.dumps(jcase(c), sort_keys=True))
 
     _shrink_failures(chk)
+    rr = stop_reach(reach)
+    if rr is not None:
+        total, missed = rr
+        chk.notes.append('reach: %d of %d executable lines of the modelled functions were executed by this run; not executed: %s'
+                         % (total - sum(len(v) for v in missed.values()), total, json.dumps(missed, sort_keys=True)))
+        chk.count('reach:lines_total', total)
+        chk.count('reach:lines_missed', sum(len(v) for v in missed.values()))
 
     if not quick:
         chk.leanchecker(['PeptVerif.Model.ModBuilder', 'PeptVerif.Spec.ModBuilder', 'PeptVerif.Lemmas.ModBuilder',
